@@ -40,6 +40,10 @@ func canon(b *strings.Builder, v interface{}) {
 	case mxj.MapSeq:
 		canonMap(b, x)
 	case []interface{}:
+		if x == nil {
+			b.WriteString("nil-list") // re-encodes as null, not []: not deeply equal to an empty list
+			return
+		}
 		b.WriteByte('[')
 		for i, e := range x {
 			if i > 0 {
@@ -104,6 +108,10 @@ func canon(b *strings.Builder, v interface{}) {
 }
 
 func canonMap(b *strings.Builder, m map[string]interface{}) {
+	if m == nil {
+		b.WriteString("nil-map")
+		return
+	}
 	keys := make([]string, 0, len(m))
 	for k := range m {
 		keys = append(keys, k)
